@@ -20,15 +20,19 @@ gvars == <<idx, s, hist, probed>>
 
 Tree == Plans[idx].tree
 D == [f \in LeafIds(Tree) |-> Range(Plans[idx].deps[f])]
+\* the request whose data source fails with a transport error (0 = none)
+Terr == Plans[idx].terr
 
 \* eager arrival of every request the tree has activated
 EnterAll(x) == [x EXCEPT !.ph = [f \in LeafIds(Tree) |-> IF x.ph[f] = 0 /\ Active(Tree, x, f) THEN 1 ELSE x.ph[f]]]
 Arrived(x, y) == {f \in LeafIds(Tree) : x.ph[f] = 0 /\ y.ph[f] = 1}
 
+\* P of a request that reads from a failed / skipped request: it is skipped (and whoever waited for it proceeds)
 CanP(x, f) == CanPrepared(x, f)
-PEff(x, f) == DsEff(LoadEff(PreparedEff(Tree, D, x, f), f), f)
-CanF(x, f) == CanLoaded(x, f) /\ x.lock = 0
-FEff(x, f) == MergedEff(Tree, MergingEff(LoadedEff(x, f), f), f)
+PEff(x, f) == IF D[f] \cap x.bad # {} THEN SkippedEff(Tree, x, f)
+              ELSE DsEff(LoadEff(PreparedEff(Tree, D, x, f), f), f)
+CanF(x, f) == CanLoaded(x, f, f = Terr) /\ x.lock = 0
+FEff(x, f) == MergedEff(Tree, MergingEff(LoadedEff(x, f, f = Terr), f), f)
 CanDo(x, f, a) == IF a = "P" THEN CanP(x, f) ELSE CanF(x, f)
 Eff(x, f, a) == IF a = "P" THEN PEff(x, f) ELSE FEff(x, f)
 
@@ -49,6 +53,8 @@ Plain == \E f \in LeafIds(Tree) : \E a \in {"P", "F"} :
 Probe == \E f, g \in LeafIds(Tree) : \E a, b \in {"P", "F"} :
   /\ Probes /\ ~probed /\ f # g
   /\ CanDo(s, f, a) /\ CanDo(s, g, b)
+  \* (a request that is going to be skipped never enters ld.prepared: no probe on it)
+  /\ (a = "P" => D[f] \cap s.bad = {}) /\ (b = "P" => D[g] \cap Eff(s, f, a).bad = {})
   /\ LET x == Eff(Eff(s, f, a), g, b) y == EnterAll(x) IN
        /\ s' = y
        /\ hist' = hist \o << [f |-> f, a |-> a \o "H", exp |-> {}],
